@@ -92,7 +92,10 @@ func lockedFields(fn *ssa.Function, at ssa.Instruction) map[string]bool {
 				early = true // an explicit unlock may run between the lock and the access
 			}
 		}
-		if deferred && !early {
+		// held: the lock dominates the access and no explicit unlock of the same mutex can run in between
+		// (released by a deferred or by a later explicit Unlock: both leave it held here)
+		_ = deferred
+		if !early {
 			held[key] = true
 		}
 	}
@@ -189,7 +192,7 @@ func (c *Ctx) R3(rule string, pkgs ...string) []report.Obligation {
 			o := report.Obligation{Rule: rule, Key: k + " :: access in " + id, Pos: c.P.InstrPos(a.in)}
 			switch {
 			case a.held[mu]:
-				o.Status, o.Why = report.Discharged, "inside `"+mu+".Lock(); defer Unlock()`"
+				o.Status, o.Why = report.Discharged, "between `"+mu+".Lock()` and its Unlock"
 			case a.fresh:
 				o.Status, o.Why = report.Discharged, "store into the freshly allocated struct (constructor, not yet shared)"
 			case c.afterJoin(a.in) != "":
@@ -815,4 +818,208 @@ func derivedFromLen(v ssa.Value, depth int) bool {
 		return derivedFromLen(x.X, depth-1)
 	}
 	return false
+}
+
+// ---------------------------------------------------------------------------
+// PAIR: what is taken is given back on every path. Tokens are (a) a mutex
+// (Lock / RLock ... Unlock / RUnlock, explicit or deferred), (b) a slot of a
+// semaphore channel (`ch <- struct{}{}` ... `<-ch` on a chan struct{} field),
+// (c) a call of a helper of the same package that only takes, resp. only gives
+// back, such a token. In every function that both takes and gives back a
+// token, every path from the take to an exit of the function passes through a
+// give-back (or through the defer statement that registers one).
+// ---------------------------------------------------------------------------
+
+type tokenOp struct {
+	key     string
+	acquire bool
+	in      ssa.Instruction
+}
+
+func tokenKeyOf(v ssa.Value) string {
+	switch x := v.(type) {
+	case *ssa.FieldAddr:
+		return fieldOwner(x) + "." + fieldName(x)
+	case *ssa.UnOp:
+		if fa, ok := x.X.(*ssa.FieldAddr); ok {
+			return fieldOwner(fa) + "." + fieldName(fa)
+		}
+		if g, ok := x.X.(*ssa.Global); ok {
+			return g.Name()
+		}
+	case *ssa.Global:
+		return x.Name()
+	}
+	return ""
+}
+
+func isEmptyStructChan(t types.Type) bool {
+	ch, ok := t.Underlying().(*types.Chan)
+	if !ok {
+		return false
+	}
+	st, ok := ch.Elem().Underlying().(*types.Struct)
+	return ok && st.NumFields() == 0
+}
+
+// directTokenOps lists the take / give-back operations written in fn itself.
+func directTokenOps(fn *ssa.Function) []tokenOp {
+	var ops []tokenOp
+	for _, b := range fn.Blocks {
+		for _, in := range b.Instrs {
+			switch x := in.(type) {
+			case ssa.CallInstruction:
+				n := staticName(x.Common())
+				switch n {
+				case "(*sync.Mutex).Lock", "(*sync.RWMutex).Lock", "(*sync.RWMutex).RLock":
+					if k := tokenKeyOf(x.Common().Args[0]); k != "" {
+						if _, isCall := in.(*ssa.Call); isCall {
+							ops = append(ops, tokenOp{k, true, in})
+						}
+					}
+				case "(*sync.Mutex).Unlock", "(*sync.RWMutex).Unlock", "(*sync.RWMutex).RUnlock":
+					if k := tokenKeyOf(x.Common().Args[0]); k != "" {
+						ops = append(ops, tokenOp{k, false, in})
+					}
+				}
+			case *ssa.Send:
+				if isEmptyStructChan(x.Chan.Type()) {
+					if k := tokenKeyOf(x.Chan); k != "" {
+						ops = append(ops, tokenOp{k, true, in})
+					}
+				}
+			case *ssa.UnOp:
+				if x.Op == token.ARROW && isEmptyStructChan(x.X.Type()) {
+					if k := tokenKeyOf(x.X); k != "" {
+						ops = append(ops, tokenOp{k, false, in})
+					}
+				}
+			}
+		}
+	}
+	return ops
+}
+
+func (c *Ctx) PAIR(rule string, pkgs ...string) []report.Obligation {
+	var out []report.Obligation
+	inPkgs := func(f *ssa.Function) bool {
+		id := c.P.FuncID(f)
+		for _, p := range pkgs {
+			if strings.HasPrefix(id, p+".") {
+				return true
+			}
+		}
+		return false
+	}
+	// helper summaries: only takes / only gives back
+	type summ struct {
+		key     string
+		acquire bool
+	}
+	helper := map[*ssa.Function]summ{}
+	for _, f := range c.P.Funcs {
+		if !inPkgs(f) {
+			continue
+		}
+		ops := directTokenOps(f)
+		if len(ops) == 0 {
+			continue
+		}
+		acq, rel := map[string]bool{}, map[string]bool{}
+		for _, o := range ops {
+			if o.acquire {
+				acq[o.key] = true
+			} else {
+				rel[o.key] = true
+			}
+		}
+		for k := range acq {
+			if !rel[k] && len(acq) == 1 {
+				helper[f] = summ{k, true}
+			}
+		}
+		for k := range rel {
+			if !acq[k] && len(rel) == 1 && len(acq) == 0 {
+				helper[f] = summ{k, false}
+			}
+		}
+	}
+	n := 0
+	for _, f := range c.P.Funcs {
+		if !inPkgs(f) {
+			continue
+		}
+		ops := directTokenOps(f)
+		for _, b := range f.Blocks {
+			for _, in := range b.Instrs {
+				if ci, ok := in.(ssa.CallInstruction); ok {
+					if cal := ci.Common().StaticCallee(); cal != nil {
+						if o := cal.Origin(); o != nil {
+							cal = o
+						}
+						for hf, s := range helper {
+							hfo := hf
+							if o := hf.Origin(); o != nil {
+								hfo = o
+							}
+							if hfo == cal || hf == ci.Common().StaticCallee() {
+								ops = append(ops, tokenOp{s.key, s.acquire, in})
+								break
+							}
+						}
+					}
+				}
+			}
+		}
+		relAt := map[ssa.Instruction]string{}
+		hasRel := map[string]bool{}
+		for _, o := range ops {
+			if !o.acquire {
+				relAt[o.in] = o.key
+				hasRel[o.key] = true
+			}
+		}
+		for _, o := range ops {
+			if !o.acquire || !hasRel[o.key] {
+				continue // a helper that only takes: checked at its callers
+			}
+			n++
+			// every path from the take to an exit passes a give-back of the same token
+			leak := ""
+			seen := map[*ssa.BasicBlock]bool{}
+			var walk func(b *ssa.BasicBlock, from int)
+			walk = func(b *ssa.BasicBlock, from int) {
+				if leak != "" {
+					return
+				}
+				for i := from; i < len(b.Instrs); i++ {
+					if relAt[b.Instrs[i]] == o.key {
+						return
+					}
+					switch b.Instrs[i].(type) {
+					case *ssa.Return, *ssa.Panic:
+						leak = c.P.InstrPos(b.Instrs[i])
+						if leak == "" {
+							leak = "an exit of " + c.P.FuncID(f)
+						}
+						return
+					}
+				}
+				for _, s := range b.Succs {
+					if !seen[s] {
+						seen[s] = true
+						walk(s, 0)
+					}
+				}
+			}
+			walk(o.in.Block(), prog.InstrIndex(o.in)+1)
+			key := c.P.FuncID(f) + " :: " + o.key + " taken, given back on every path"
+			out = append(out, verdict(leak == "", rule, key, c.P.InstrPos(o.in), "every path from the take to an exit passes through a give-back (explicit or deferred)",
+				"a path from the take reaches "+leak+" without giving "+o.key+" back: the next taker blocks forever"))
+		}
+	}
+	if n == 0 {
+		out = append(out, bad(rule, "tokens", "", "no function takes and gives back a mutex or a semaphore slot: the rule sees nothing"))
+	}
+	return out
 }
